@@ -66,6 +66,13 @@ func runOne(prop string, pd *propDef, seed uint64, idx int64, tier string, sc *S
 		sc = pd.gen(g, tier)
 		sc.Prop = prop
 		sc.Seed = seed
+		if tier == "thorough" && sc.Runner == "" && prop != "C09" && prop != "C12" && g.pct(10) {
+			// thorough tier: every atomic operation of every file is a scheduling point in a tenth of the runs
+			sc.Sim.AtomicAll = true
+			if sc.Sim.MaxSteps == 0 {
+				sc.Sim.MaxSteps = 2000000
+			}
+		}
 	}
 	postProbes = map[string]int{}
 	rd := runScenario(sc, pd.setup)
